@@ -39,11 +39,12 @@ class Lane:
         return vlib.Ctx.tlc(self, *a, **kw)
 
 
-def mc_cfg(ops, handles, withset=False, emit=False, check=True, **sw):
+def mc_cfg(ops, handles, withset=False, emit=False, check=True, more=False, **sw):
     s = SW
     for k, v in sw.items():
         s = s.replace("%s = TRUE" % k, "%s = %s" % (k, v))
-    s += "  CtlSets = {{\"cpu\", \"memory\"}, {\"u\"}}\n  Names = {\"x\", \"y\"}\n  RNames = {\"r\"}\n  PidSet = {\"p1\", \"p2\"}\n"
+    s += "  CtlSets = {{\"cpu\", \"memory\"}, {\"u\"}%s}\n" % (", {\"cpuacct\", \"memory\", \"pids\"}" if more else "")
+    s += "  Names = {\"x\", \"y\"}\n  RNames = {\"r\"}\n  PidSet = {\"p1\", \"p2\"}\n"
     s += "  MaxOps = %d\n  MaxDepth = 2\n  MaxHandles = %d\n  WithSet = %s\n  Emit = %s\nSPECIFICATION Spec\n" % (
         ops, handles, "TRUE" if withset else "FALSE", "TRUE" if emit else "FALSE")
     if check:
@@ -83,7 +84,7 @@ def mc(ctx0, errs):
 def histories(ctx, lane, num, out):
     """behaviours of Cgroup_MC produced by TLC's simulator, seeded; the first call names the hierarchies"""
     try:
-        r = lane.tlc("Cgroup_MC", cfg=mc_cfg(6, 5, withset=True, emit=True, check=False), workers=1,
+        r = lane.tlc("Cgroup_MC", cfg=mc_cfg(6, 5, withset=True, emit=True, check=False, more=not ctx.quick()), workers=1,
                      timeout=900, simulate="num=%d" % num, depth=8, extra=["-seed", str(1000 + ctx.seed)])
         seen, res = set(), []
         for m in re.finditer(r'<<"HIST", "(.*)">>', r.out):
@@ -99,7 +100,7 @@ def histories(ctx, lane, num, out):
 
 
 def run(ctx):
-    nonce = "%ds%d" % (os.getpid(), ctx.seed)
+    nonce = "p%ds%dx" % (os.getpid(), ctx.seed)
     try:
         return run1(ctx, nonce)
     finally:
